@@ -71,6 +71,68 @@ impl Property for C14 {
                 ops.push(g.gen_run().to_string());
             }
         }
+        // A rule that becomes matchable only through an in-place container rebuild:
+        // it has already run (so semi-naive only looks at new rows), then two elements
+        // are united, which rewrites the container's contents without changing its id.
+        if rng.chance(2, 3) {
+            let cands: Vec<(crate::wgen::Ctor, usize)> = g
+                .sig
+                .ctors
+                .iter()
+                .filter_map(|c| match c.args.as_slice() {
+                    [Ty::Cont(k)] => Some((c.clone(), *k)),
+                    _ => None,
+                })
+                .collect();
+            if let Some((ctor, k)) = cands.get(rng.below(cands.len().max(1))).cloned() {
+                let cont = g.sig.conts[k].clone();
+                // element sort (one nesting level is unfolded)
+                let (elem_sort, wrap): (Option<usize>, Option<crate::wgen::Cont>) = match &cont.elem {
+                    Ty::Eq(s) => (Some(*s), None),
+                    Ty::Cont(i) => match &g.sig.conts[*i].elem {
+                        Ty::Eq(s) => (Some(*s), Some(g.sig.conts[*i].clone())),
+                        _ => (None, None),
+                    },
+                    _ => (None, None),
+                };
+                if let Some(s) = elem_sort {
+                    let leaves: Vec<String> = g.sig.ctors.iter().filter(|c| c.out == s && c.args.is_empty()).map(|c| format!("({})", c.name)).collect();
+                    if leaves.len() >= 2 {
+                        let a = leaves[rng.below(leaves.len())].clone();
+                        let mut b = leaves[rng.below(leaves.len())].clone();
+                        if a == b {
+                            b = leaves.iter().find(|x| **x != a).unwrap().clone();
+                        }
+                        let build = |kind: &crate::wgen::ContKind, x: &str, y: &str| -> String {
+                            match kind {
+                                crate::wgen::ContKind::Vec => format!("(vec-of {x} {y})"),
+                                crate::wgen::ContKind::Set => format!("(set-of {x} {y})"),
+                                crate::wgen::ContKind::MultiSet => format!("(multiset-of {x} {y})"),
+                                crate::wgen::ContKind::Map => format!("(map-insert (map-insert (map-empty) 0 {x}) 1 {y})"),
+                                crate::wgen::ContKind::Pair => format!("(pair {x} 0)"),
+                            }
+                        };
+                        let (before, after) = match &wrap {
+                            None => (build(&cont.kind, &a, &b), build(&cont.kind, &a, &a)),
+                            Some(inner) => {
+                                let ib = build(&inner.kind, &a, &b);
+                                let ia = build(&inner.kind, &a, &a);
+                                (build(&cont.kind, &ib, &ib), build(&cont.kind, &ia, &ia))
+                            }
+                        };
+                        // sets collapse duplicates: write the canonical form the pattern must take
+                        let rs = g.pick_ruleset();
+                        ops.push("(relation Hit__ (i64))".into());
+                        ops.push(format!("(rule ((= e__ ({} {after}))) ((Hit__ 1)) :ruleset {rs})", ctor.name));
+                        ops.push(format!("({} {before})", ctor.name));
+                        ops.push(format!("(run {rs} 1)"));
+                        ops.push(format!("(union {a} {b})"));
+                        ops.push(format!("(run {rs} 1)"));
+                        ops.push("(check (Hit__ 1))".into());
+                    }
+                }
+            }
+        }
         ops.extend(super::c01::probe_ops(&mut g, 2));
         case.ops = ops;
         if index % 6 == 5 {
